@@ -40,10 +40,6 @@ def rdRtObs : Rd RtObs := do
   let d ← Rd.opt rdDRes
   pure { enc := e, dec := d }
 
-def rtModel (v r : VLA) : RtObs :=
-  let e := marshal v
-  { enc := e, dec := match e with | .ok b => some (unmarshal r b) | _ => none }
-
 /-- `c19.rt <vla> <receiver> => <MRes> <opt DRes>` -/
 def rt : Handler :=
   mkHandler (do let v ← rdVLA; let r ← rdVLA; pure (v, r)) rdRtObs
